@@ -721,3 +721,69 @@ fn c29_vote_only_for_up_to_date_candidate() {
     std::mem::forget(rq);
     std::mem::forget(c);
 }
+
+//@ id=C29 crate=raft tier=quick timeout=900 mem=16 bounds="candidate node (symbolic index 0..=2) of a 3-node cluster with fully symbolic bookkeeping (all u64 last log index / term / commit index, term < 2^64-1), stale voted flags symbolic; ONE pre_election() and ONE election() call" desc="the other half of the vote-side log check (two cooperating sites): the PreVote and Vote requests a candidate sends carry exactly ITS OWN last log index, last log term and commit index (so the voter's comparison in validate_log_for_vote is made against the candidate's real log), the proposed term is current+1, one request per other node and none to itself, and starting an election clears every other node's vote flag" kernel="Cluster::pre_election,Cluster::election"
+#[kani::proof]
+#[kani::unwind(5)]
+fn c29_candidate_advertises_its_own_log() {
+    crate::vclock::set(0);
+    let me: u64 = kani::any();
+    kani::assume(me < 3);
+    let mut c = mk(me, 3, ArrLog::empty());
+    let li: u64 = kani::any();
+    let lt: u64 = kani::any();
+    let lc: u64 = kani::any();
+    c.local_mut().log_index = li;
+    c.local_mut().log_term = lt;
+    c.local_mut().log_commit = lc;
+    // other nodes' bookkeeping is different from the candidate's own on purpose
+    let o1 = ((me + 1) % 3) as usize;
+    let o2 = ((me + 2) % 3) as usize;
+    c.nodes[o1].log_index = kani::any();
+    c.nodes[o1].log_term = kani::any();
+    c.nodes[o1].log_commit = kani::any();
+    c.nodes[o2].log_index = kani::any();
+    c.nodes[o2].log_term = kani::any();
+    c.nodes[o2].log_commit = kani::any();
+    c.nodes[o1].voted = kani::any();
+    c.nodes[o2].voted = kani::any();
+    let t: u64 = kani::any();
+    kani::assume(t < u64::MAX - 1);
+    c.term = t;
+    let pre = c.pre_election();
+    assert!(pre.len() == 2, "C29: pre-election does not address exactly the two other nodes");
+    assert!(c.term == t, "C29: pre-election changed the term");
+    let mut k = 0usize;
+    while k < 2 {
+        let r = &pre[k];
+        assert!(matches!(r.data, RequestType::PreVote));
+        assert!(r.index == me && r.target != me && r.target < 3, "C29: pre-vote request from/to the wrong node");
+        assert!(r.term == t + 1, "C29: pre-vote request does not propose the next term");
+        assert!(r.log_index == li && r.log_term == lt && r.log_commit == lc, "C29: pre-vote request does not carry the candidate's own log position");
+        k += 1;
+    }
+    assert!(pre[0].target != pre[1].target, "C29: two pre-vote requests to one node");
+    assert!(!c.nodes[o1].voted && !c.nodes[o2].voted, "C29: pre-election kept a stale vote flag");
+    c.nodes[o1].voted = kani::any();
+    c.nodes[o2].voted = kani::any();
+    let votes = c.election();
+    assert!(votes.len() == 2, "C29: election does not address exactly the two other nodes");
+    assert!(c.term == t + 1, "C29: election did not move to the next term");
+    assert!(matches!(c.state, ClusterState::Candidate));
+    let mut k = 0usize;
+    while k < 2 {
+        let r = &votes[k];
+        assert!(matches!(r.data, RequestType::Vote));
+        assert!(r.index == me && r.target != me && r.target < 3, "C29: vote request from/to the wrong node");
+        assert!(r.term == t + 1, "C29: vote request is not for the candidate's new term");
+        assert!(r.log_index == li && r.log_term == lt && r.log_commit == lc, "C29: vote request does not carry the candidate's own log position");
+        k += 1;
+    }
+    assert!(votes[0].target != votes[1].target, "C29: two vote requests to one node");
+    assert!(!c.nodes[o1].voted && !c.nodes[o2].voted, "C29: election kept a stale vote flag");
+    kani::cover!(li != c.nodes[o1].log_index, "candidate's log differs from another node's bookkeeping");
+    kani::cover!(true, "end of harness reachable");
+    std::mem::forget(pre);
+    std::mem::forget(votes);
+    std::mem::forget(c);
+}
